@@ -8,7 +8,7 @@ is a run-time activity and is not claimed.
 import ast
 
 from .. import astutil as A
-from ..fa import FA
+from ..fa import FA, log_call
 from .effects import Assume, call_atom
 
 FSDS = "storage_filesystem._FilesystemDataSource"
@@ -447,6 +447,187 @@ def _is_valid_flag(fa, x, node_id, depth=5):
     return False
 
 
+# What a caught OSError is guaranteed to carry.  errno / strerror / filename are filled in only when the raising
+# site passed them: an error reported by write() / flush() / close() (ENOSPC, EFBIG in the middle of a file) has
+# no file name, and an `IOError("text")` raised by the repository itself (the partition-merge signal) has none
+# of the three — they are then None.
+EXC_OPTIONAL = ("filename", "filename2", "errno", "strerror")
+EXC_ALWAYS = EXC_OPTIONAL + ("args", "with_traceback", "add_note", "__class__", "__traceback__", "__cause__", "__context__",
+                             "__suppress_context__", "__notes__", "__str__", "__repr__", "__doc__", "__dict__", "__reduce__")
+NONE_TOLERANT_CALLS = ("str", "repr", "format", "print", "bool", "type", "isinstance", "id", "hash", "get", "ascii")
+_NUMERIC_SPEC = __import__("re").compile(r"%[-+ #0-9.*]*[diouxXeEfFgGc]")
+
+
+def _exc_detail(fa, h, x, at):
+    """`x` (evaluated at `at`, inside handler `h`) as a detail of the caught exception, through local temporaries and
+    aliases of the exception: ('optional', text) for errno / strerror / filename (may be None), ('absent', text) for
+    an attribute an OSError need not have, ('index', text) for an element of its args; else None."""
+    if h.name is None or not isinstance(x, (ast.Name, ast.Attribute, ast.Subscript)) or not isinstance(getattr(x, "ctx", None), ast.Load):
+        return None
+    try:
+        e = fa.expand(x, at)
+    except Exception:  # noqa - an expression the expander cannot place
+        e = x
+    is_exc = lambda v: isinstance(v, ast.Name) and v.id == h.name
+    if isinstance(e, ast.Attribute) and is_exc(e.value):
+        if e.attr in EXC_OPTIONAL:
+            return ("optional", A.norm(e))
+        if e.attr not in EXC_ALWAYS:
+            return ("absent", A.norm(e))
+    if isinstance(e, ast.Subscript) and isinstance(e.value, ast.Attribute) and e.value.attr == "args" and is_exc(e.value.value) \
+            and not isinstance(e.slice, ast.Slice):
+        return ("index", A.norm(e))
+    return None
+
+
+def _none_intolerant_use(fa, x):
+    """How the value of expression `x` is consumed, when that fails for None: a description, or None when the use is
+    harmless for None (formatting with {} / %s / an f-string, logging, str(), tests, comparisons by identity or
+    equality, assignment, being returned)."""
+    n = x
+    while True:
+        p = fa.pm.get(n)
+        if p is None or isinstance(p, ast.stmt):
+            return None
+        if isinstance(p, ast.Attribute) and p.value is n:
+            return "`%s` is read from it" % A.short(p, 50)
+        if isinstance(p, ast.Subscript):
+            return "`%s` subscripts %s it" % (A.short(p, 50), "with" if p.slice is n else "into")
+        if isinstance(p, ast.Starred):
+            return "`%s` unpacks it" % A.short(p, 50)
+        if isinstance(p, ast.keyword):
+            n = p
+            continue
+        if isinstance(p, ast.Call):
+            if p.func is n:
+                return "`%s` calls it" % A.short(p, 50)
+            nm = A.call_attr(p)
+            if log_call(p) or nm in NONE_TOLERANT_CALLS or (nm == "format" and isinstance(p.func, ast.Attribute)) \
+                    or (nm == "getattr" and len(p.args) == 3):
+                return None
+            return "`%s` is given it as an argument" % A.short(p, 60)
+        if isinstance(p, ast.FormattedValue):
+            if p.format_spec is not None and A.norm(p.format_spec) not in ("''", 'f""', "f''", ""):
+                return "the format specification of `%s` does not accept None" % A.short(p, 40)
+            return None
+        if isinstance(p, ast.BinOp):
+            if isinstance(p.op, ast.Mod) and p.right is n or (isinstance(p.op, ast.Mod) and isinstance(p.right, ast.Tuple) and fa.inside(x, p.right)):
+                tpl = A.const_str(p.left)
+                if tpl is not None and not _NUMERIC_SPEC.search(tpl):
+                    return None
+                return "`%s` formats it with a conversion that does not accept None" % A.short(p, 50)
+            return "`%s` computes with it" % A.short(p, 50)
+        if isinstance(p, ast.UnaryOp):
+            if isinstance(p.op, ast.Not):
+                return None
+            return "`%s` computes with it" % A.short(p, 50)
+        if isinstance(p, ast.Compare):
+            if all(isinstance(o, (ast.Is, ast.IsNot, ast.Eq, ast.NotEq)) for o in p.ops):
+                return None
+            if all(isinstance(o, (ast.In, ast.NotIn)) for o in p.ops) and p.left is n:
+                return None
+            return "`%s` orders / searches it" % A.short(p, 50)
+        if isinstance(p, ast.BoolOp):
+            if p.values[-1] is not n:
+                return None            # used for its truth value
+            n = p
+            continue
+        if isinstance(p, ast.IfExp):
+            if p.test is n:
+                return None
+            n = p
+            continue
+        if isinstance(p, (ast.Tuple, ast.List, ast.Set, ast.Dict, ast.NamedExpr, ast.JoinedStr)):
+            n = p
+            continue
+        if isinstance(p, (ast.comprehension, ast.ListComp, ast.SetComp, ast.GeneratorExp, ast.DictComp)):
+            if isinstance(p, ast.comprehension) and p.iter is n:
+                return "`%s` iterates over it" % A.short(p.iter, 50)
+            return None
+        return None
+
+
+def _handler_cannot_fail(ck, R, fa, h, site, what):
+    """The handler that absorbs the I/O error is itself total for EVERY OSError the storage layer can raise: it does
+    not depend on details the error need not carry (an operation that fails for None on errno / strerror / filename, an
+    attribute or args element that may not be there), unless a test of that very detail excludes the case; and it
+    performs no storage operation that the same fault makes fail again outside a handler of its own."""
+    from .c07 import expr_live
+    from .effects import reach_effects
+    faults = []
+    for st in h.body:
+        for x in A.walk_local(st):
+            ids = fa.nodes(x) if isinstance(x, (ast.Name, ast.Attribute, ast.Subscript)) else []
+            if not ids:
+                continue
+            d = _exc_detail(fa, h, x, ids[0])
+            if d is None:
+                continue
+            kind, text = d
+            par = fa.pm.get(x)
+            if isinstance(par, ast.Attribute) and par.value is x and _exc_detail(fa, h, par, ids[0]) is not None:
+                continue               # part of a longer detail expression that is judged itself
+            if kind == "optional":
+                how = _none_intolerant_use(fa, x)
+                if how is None:
+                    continue
+                why = "%s, but `%s` is None unless the failing call supplied it (write / flush / close and the repository's own IOError(text) do not)" % (how, text)
+            elif kind == "absent":
+                if isinstance(par, ast.Call) and A.call_attr(par) in ("hasattr", "getattr"):
+                    continue
+                why = "`%s` is not an attribute every OSError has" % text
+            else:
+                why = "`%s` fails when the error was built with fewer arguments (IOError(text) has one)" % text
+            base = text.split("[")[0]
+
+            def atom(e, text=text, base=base, kind=kind):
+                t = A.norm(e)
+                if t == text:
+                    return False                       # the detail is None / falsy
+                if isinstance(e, ast.Compare) and len(e.ops) == 1 and A.norm(e.left) == text:
+                    if isinstance(e.ops[0], ast.Is) and A.is_none(e.comparators[0]):
+                        return True
+                    if isinstance(e.ops[0], ast.Eq) and A.is_none(e.comparators[0]):
+                        return True
+                if isinstance(e, ast.Call) and A.call_attr(e) == "isinstance" and e.args and A.norm(e.args[0]) == text:
+                    return False
+                if isinstance(e, ast.Call) and A.call_attr(e) == "hasattr" and len(e.args) == 2 and kind == "absent" \
+                        and "%s.%s" % (A.norm(e.args[0]), A.const_str(e.args[1])) == text:
+                    return False
+                if kind == "index" and isinstance(e, ast.Compare) and ("len(%s)" % base) in t:
+                    return False                       # whatever the length test is, assume it does not hold
+                return None
+            if not expr_live(Assume(fa, atom), x):
+                continue                               # a test of that very detail excludes the case
+            faults.append((x, why))
+    # storage operations inside the handler (a roll-back, a marker file, a second attempt) fail under the same fault
+    for st in h.body:
+        for c in A.walk_local(st):
+            if not isinstance(c, ast.Call) or log_call(c):
+                continue
+            own = [t for t in _try_around(fa, c) if fa.inside(t, h) and any(_handler_covers_oserror(h2) for h2 in t.handlers)]
+            if own:
+                continue
+            fs = []
+            if c in ck.cg.fs_write_sites.get(fa.qual, []):
+                fs = [(fa.fi, c, fa.qual)]
+            else:
+                try:
+                    cands, _how = ck.cg.resolve(c, fa.fi)
+                except Exception:  # noqa - unresolvable call: no effect known
+                    cands = []
+                for cand in cands:
+                    fs += reach_effects(ck, cand)[0]
+            if fs:
+                faults.append((c, "`%s` writes to the store again (%s) outside a handler of its own; the fault that brought control here "
+                                  "makes that fail too" % (A.short(c, 50), fs[0][2] if isinstance(fs[0][2], str) else fs[0][0].qual)))
+    ok = not faults
+    ck.ob(R, fa.key(site, "handler-cannot-fail"), ok,
+          "the handler that absorbs the I/O error does not depend on optional details of the error and writes nothing" if ok else
+          "the handler that absorbs an I/O error %s can raise itself, so the error is not absorbed and the caller gets an exception instead of "
+          "the value: %s" % (what, "; ".join(m for (_, m) in faults[:2])), fa.where(faults[0][0]) if faults else fa.where(h))
+
+
 def check_recovery(ck):
     R = "C08.R3"
     ck.rule(R, "absorb and recover: I/O errors are absorbed around memoize in the local runner, around the read in "
@@ -476,6 +657,7 @@ def check_recovery(ck):
         ck.ob(R, rl.key(c, "absorb-write-error"), ok, "an I/O error while memoizing is logged and swallowed; the computed result is still returned" if ok else
               "an I/O error raised by memoize escapes (or is re-raised): the caller gets an exception instead of the computed value", rl.where(c))
         if hs:
+            _handler_cannot_fail(ck, R, rl, hs[0], c, "while memoizing")
             # after the handler the normal result paths remain reachable
             hn = [n.id for n in rl.cfg.nodes if n.kind == "except" and n.ast is hs[0]]
             okc = bool(hn) and rl.cfg.exit in rl.cfg.reach(hn)
@@ -492,6 +674,7 @@ def check_recovery(ck):
             # handler or a result variable returned after the try), and nothing is re-raised
             vals, raises = _after_handler(pe, hs[0])
             ok = bool(vals) and not raises and all(_valid_flag_is(pe, e, n, False, IN) for (e, n, IN) in vals)
+            _handler_cannot_fail(ck, R, pe, hs[0], c, "while reading a memoized result")
         ck.ob(R, pe.key(c, "read-error-means-invalid"), ok, "an I/O error while reading means 'not valid' (the caller recomputes)" if ok else
               "an I/O error while reading a memoized result is not turned into valid_result=False", pe.where(c))
     gm = FA(ck, "storage_base.DataSourceMetadataSource.get_mementos")
@@ -515,6 +698,7 @@ def check_recovery(ck):
                         appended = [a for a in gm.calls("append") if len(a.args) == 1 and gm.nodes(a)
                                     and any(e is call for (e, _) in A0.cases(a.args[0], gm.nodes(a)[0], gm.df.IN))]
                         ok = ok and (bool(appended) or _is_returned_element(gm, A0, call))
+                        _handler_cannot_fail(ck, R, fh, hs[0], c, "while reading a memento")
                     ck.ob(R, fh.key(c, "unreadable-means-absent"), ok, "an unreadable memento counts as absent" if ok else
                           "an I/O error while reading a memento escapes get_mementos", fh.where(c))
                     rm = None
@@ -525,6 +709,7 @@ def check_recovery(ck):
         ok = False
         if hs:
             ok = _handler_appends_none(gm, hs[0], c)
+            _handler_cannot_fail(ck, R, gm, hs[0], c, "while reading a memento")
         ck.ob(R, gm.key(c, "unreadable-means-absent"), ok, "an unreadable memento counts as absent" if ok else
               "an I/O error while reading a memento escapes get_mementos", gm.where(c))
         # json damage (truncated file) is a ValueError: not required by the design table, noted
